@@ -61,7 +61,8 @@ def r_traversals(ck: Checker) -> None:
 def r_xpath_spell(ck: Checker) -> None:
     f = ck.repo.func(LNODE, "_set_xpath")
     nodep, pxp = f.node.args.args[0].arg, f.node.args.args[1].arg
-    xs = [st for st in f.node.body if isinstance(st, ast.Assign) and isinstance(st.value, ast.JoinedStr)]
+    from ..digest import is_strish
+    xs = [st for st in f.node.body if isinstance(st, ast.Assign) and is_strish(st.value, {})]
     what = "_set_xpath extends the parent's path with '/@<parent field>[<parent index or 0>]<Class>'"
     ok = False
     if len(xs) == 1:
